@@ -28,18 +28,82 @@ def run(tier):
     db = core.DB(core.extract(list(units.PTREE)))
     kinds = collections.Counter()
     # (A)
+    fwd = {}
     for fn in db.order:
         cls = fn.get('cls') or {}
         if not (cls.get('tn') or '').endswith('>::state_handler') or fn['n'] not in ('start', 'success', 'failure', 'unwind') or '/tao/pegtl/' not in fn['pat']: continue
         a = cls['a']; sel = bool(a[1]['v']); leaf = bool(a[2]['v'])
         try:
             probs = ptree.check_hook(db, fn, sel, leaf)
+            fwd.setdefault((cls.get('s') or '', sel, leaf), {}).setdefault(fn['n'], set()).update(ptree.check_hook.forwards)
         except (ptree.Budget, ptree.Unmodelled) as e:
             R.broke('handler hook %s: %s' % (fn['disp'][:120], e)); continue
         kinds['hook'] += 1
         R.ob(ok=not probs, key=fn['disp'])
         for p in probs:
             R.violation('T-stack', 'contrib/parse_tree.hpp::make_control::state_handler<%s, %s>::%s' % ('true' if sel else 'false', 'B' if sel else ('true' if leaf else 'false'), fn['n']), p, {'function': fn['disp']}, key=('T', sel, leaf, fn['n'], p))
+    # (A') what the handlers owe the control they wrap (C08 seen from a control passed to parse_tree::parse): a handler that tells the wrapped control
+    # of the start of an attempt tells it of the end on every way out - success, failure, and unwind when the control provides unwind (of the
+    # universe's controls only vu::pt::ctl_uw does) -, exactly once; a handler that keeps the start to itself keeps the ends to itself
+    for (hs, sel, leaf), hooks in sorted(fwd.items()):
+        if 'start' not in hooks: continue
+        site = 'contrib/parse_tree.hpp::make_control::state_handler<%s, %s>' % ('true' if sel else 'false', 'B' if sel else ('true' if leaf else 'false'))
+        has_uw = 'vu::pt::ctl_uw' in hs
+        tells = hooks['start'] == {('start',)}
+        probs = []
+        if not tells and hooks['start'] != {()}:
+            probs.append('start calls %s of the wrapped control on different paths, expected one start on all or on none' % sorted(hooks['start']))
+        for h in ('success', 'failure', 'unwind'):
+            if h not in hooks: continue
+            want = {(h,)} if tells and (h != 'unwind' or has_uw) else {()}
+            kinds['forward'] += 1; kinds['forward-unwind'] += (h == 'unwind' and has_uw and tells)
+            if hooks[h] != want:
+                show = lambda ss: ' / '.join(sorted(('+'.join(x) or 'no hook') for x in ss))
+                probs.append('%s calls [%s] of the wrapped control but start calls [%s]%s: the control passed to parse_tree::parse sees %s' % (
+                    h, show(hooks[h]), show(hooks['start']), ' and the control provides unwind' if h == 'unwind' and has_uw else '',
+                    'a start that nothing ends' if tells else 'an end without a start'))
+        R.ob(ok=not probs, key=('forward', hs))
+        for p in probs: R.violation('T-forward', site, p, {'handler': hs}, key=('F', sel, leaf, p))
+    # (A'') the way into a rule attempt: under the tree-building control every attempt of a rule is entered through Control< Rule >::match, whatever function
+    # that name resolves to for the rule's handler (today normal< Rule >::match, inherited).  That function is enumerated like the central dispatch (C08 H1-H7)
+    # with the handler's own hooks as events: a handler with control enabled sees the start of every attempt - a way in that skips the frame for some modes leaves
+    # what the sub-rules collected in the frame of the caller, also when the attempt fails under a not_at
+    from .. import hooks
+    from ..exc import walk
+    hmap = {(mc, rule): key for mc, rule, S, L, key in ptree.handlers(db)}
+    entries = {}
+    for fn in db.order:
+        for c in walk(fn.get('body'), lambda n: n.get('k') == 'call' and n.get('cn') == 'match', []):
+            cta = c.get('cta') or []
+            if len(cta) < 4 or not (cta[3].get('s') or '').endswith('>::type') or 'parse_tree::internal::make_control<' not in cta[3]['s']: continue
+            cc = c.get('cc') or {}
+            rule = (cc.get('a') or [{}])[0].get('s')
+            callee = db.get(c.get('cu'))
+            if callee is None or callee.get('body') is None or rule is None: continue
+            entries.setdefault(callee['id'] if 'id' in callee else c.get('cu'), (callee, rule, cta[3]['s'][:-len('::type')]))
+    for cu, (callee, rule, mc) in sorted(entries.items(), key=lambda kv: kv[1][0]['disp']):
+        hk = hmap.get((mc, rule))
+        if hk is None: continue          # a rule for which no handler was instantiated: nothing is known about its control
+        closure = ptree.bases_closure(db, hk)
+        if (callee.get('cls') or {}).get('s') not in closure: continue      # Rule::match of a rule, not the match of its control
+        en = ptree.const_of(db, hk, 'enable')
+        # en is None: the initialiser of enable was never instantiated for this handler (nothing in the unit reads it): the forced form of H1 is not applied to it;
+        # the floor on 'entry-enabled' below keeps the clause from going vacuous
+        try:
+            out, mon, viol, steps = hooks.table(db, callee, linked=lambda e, cq: cq == T + 'match' or ((e.get('cc') or {}).get('s') in closure))     # the central dispatch and the match of the wrapped control are part of the way in: inlined
+        except (hooks.Budget, hooks.Unmodelled) as e:
+            R.broke('entry %s: %s' % (callee['disp'][:160], e)); continue
+        view = dict(callee); view['ta'] = [{'s': rule}] + list(callee.get('ta') or [])
+        if len(view['ta']) < 5 or not out:
+            R.broke('entry %s: %s' % (callee['disp'][:160], 'no completed path' if not out else 'unexpected template arguments')); continue
+        probs, info = hooks.check_dispatch(db, view, out, mon, enabled_by_class=(None if en is None else bool(en)))
+        kinds['entry'] += 1; kinds['entry-enabled'] += bool(en)
+        # H4 (unwind) is decided on the central dispatch by C08 and for the handlers by (A'): has_unwind of a handler is a SFINAE fact this table does not see
+        probs = [pr for pr in probs if pr[0] != 'H4']
+        R.ob(ok=not probs, key=('entry', callee['disp']))
+        for pr in probs:
+            what = 'apply_mode::%s rewind_mode::%s' % ('action' if info['A'] else 'nothing', 'required' if info['M'] == 0 else 'optional')
+            R.violation('T-entry', core.rel(callee.get('pat') or '').split(':')[0] + '::' + callee['q'].split('<')[0].replace(T, '') + '::match', '%s [%s, handler %s]' % (pr[1], what, hk.split('::state_handler')[-1]), {'function': callee['disp'], 'row': pr[2]}, key=('E', pr[1], what, hk.split('::state_handler')[-1].split(',', 1)[-1]))
     # (B)
     for mc, rule, S, L, key in ptree.handlers(db):
         selname = None
@@ -83,7 +147,7 @@ def run(tier):
             R.ob(ok=not probs, key=fn['disp'])
             for p in probs: R.violation('T-transform', 'contrib/parse_tree.hpp::%s::transform' % cq[len(PT):], p, key=('X', cq, p))
     R.cov['obligations_by_kind'] = dict(kinds)
-    for k, fl in (('hook', 100), ('handler', 45), ('parse', 3), ('transform', 3)):
+    for k, fl in (('hook', 100), ('handler', 45), ('parse', 3), ('transform', 3), ('forward', 60), ('forward-unwind', 4), ('entry', 40), ('entry-enabled', 30)):
         if kinds.get(k, 0) < fl: R.broke('only %d %s obligations (floor %d)' % (kinds.get(k, 0), k, fl))
     R.assumptions = ['the tree-equals-derivation statement for whole runs is the composition of these clauses with C08 (balanced hooks) and C01/C02; it is not explored as a trace property',
                      'user-supplied node types and selectors with their own transform are outside the statement']
